@@ -36,7 +36,14 @@ EXPLANATION = (
     'of distinct but close values.  Histories: after a first simulate() one '
     'unpacked parameter is re-assigned through params[name] = values and '
     'the second simulate()/simulate(idx) is compared with the reference for '
-    'the NEW grid.')
+    'the NEW grid.  Data kinds: every stop decision reaches the real loop as '
+    'bool / numpy.bool_ / int / float / numpy.int64 / None-or-str / 0-d '
+    'array (a function of the state, identical in the symbolic path, its '
+    'replay and the concrete runs); grids and lookups contain None (mixed '
+    'into symbolic integer grids) and, concretely, 0, 0.0, False, \'\', '
+    'numpy scalars in list / tuple / object-array / typed-array containers; '
+    'rep_max and the variation index are given as numpy/float/str '
+    'representations in the concrete runs.')
 
 ASSUMPTIONS = [
     'at most 2 skipped repetitions per variation (1 in the resume harness)',
@@ -58,7 +65,12 @@ GRIDS = {
                ['e', [10, 20], True]],
     'g3x3': [['z', [1, 2, 3], True], ['c', 7, False], ['y', [10, 20, 30],
                                                          True]],
+    # parameter values of other kinds: None, zero-like, empty string, bool
+    'gNone': [['s', [None, 'rr', 'pf'], True], ['c', 7, False]],
+    'gKinds': [['t', [False, 2.5], True], ['c', 7, False],
+               ['s', [None, 0, ''], True]],
 }
+KIND_GRIDS = ('gNone', 'gKinds')
 
 
 # ---------------------------------------------------------------------------
@@ -221,15 +233,51 @@ class Log:
 
 UNKNOWN = 1000  # ids >= UNKNOWN: a combination outside the current grid
 
+# Every kind of value a user's stop predicate can hand back.  "Stops when
+# _keep_going says stop" is about truthiness, not about the object False.
+KEEP_KINDS = ['bool', 'numpy.bool_', 'int', 'float', 'None-or-str',
+              '0-d array', 'numpy.int64']
 
-def make_runner(grid, dec, log, rep_max, state=None):
+
+def wrap_keep(kind, d):
+    d = bool(d)
+    if kind == 'bool':
+        return d
+    if kind == 'numpy.bool_':
+        return np.bool_(d)
+    if kind == 'int':
+        return int(d)
+    if kind == 'float':
+        return float(d)
+    if kind == 'None-or-str':
+        return 'go on' if d else None
+    if kind == '0-d array':
+        return np.array(d)
+    if kind == 'numpy.int64':
+        return np.int64(d)
+    raise ValueError(kind)
+
+
+def keep_kind(cfg, v, k, s):
+    """the kind used for the stop decision of state (v, k, s): a function of
+    the unit's cfg and of the state only, so that the symbolic path, its
+    replay and the concrete runs deliver the same kind"""
+    kinds = cfg.get('keep_kinds') or KEEP_KINDS
+    return kinds[(v + k + s + cfg.get('kind_shift', 0)) % len(kinds)]
+
+
+def make_runner(grid, dec, log, rep_max, state=None, cfg=None):
     """The instrumented subclass of the REAL SimulationRunner.  `state`
     holds the names/combinations of the grid that is CURRENTLY configured (it
     changes in the reconfigure histories)."""
     rm, rs = repo_module(RUN), repo_module(RES)
+    cfg = cfg or {}
     if state is None:
         state = {}
         state['names'], state['combos'] = documented_order(grid)
+
+    class HarnessSkip(rm.SkipThisOne):
+        """user code may raise its own subclass of SkipThisOne"""
 
     def identify(params):
         t = tuple(params[n] for n in state['names'])
@@ -269,6 +317,8 @@ def make_runner(grid, dec, log, rep_max, state=None):
                                   (log.max_attempts, v))
             if dec.skip(log.run, v, a):
                 log.skips[v] += 1
+                if (v + a + cfg.get('kind_shift', 0)) % 2:
+                    raise HarnessSkip('skipped by the harness (subclass)')
                 raise rm.SkipThisOne('skipped by the harness')
             log.succ[v] += 1
             r = rs.SimulationResults()
@@ -284,7 +334,8 @@ def make_runner(grid, dec, log, rep_max, state=None):
             res = current_sim_results['res'][-1]
             log.keepseen.append(((log.run, v, k, s),
                                  (current_rep, res._value, res.num_updates)))
-            return dec.keep(log.run, v, k, s)
+            return wrap_keep(keep_kind(cfg, v, k, s),
+                             dec.keep(log.run, v, k, s))
 
     return Instrumented()
 
@@ -376,7 +427,7 @@ def scenario(cfg, rep_max, dec, emit, idx=None, start=None, rep_max2=None):
     max_attempts = hi + cfg.get('max_skips', 2) + 2
     log = Log(nvar, max_attempts)
     state = dict(names=names, combos=combos)
-    runner = make_runner(grid, dec, log, rep_max, state)
+    runner = make_runner(grid, dec, log, rep_max, state, cfg)
     saver = runner._simulation_results_saver
     rs = repo_module(RES)
 
@@ -523,7 +574,12 @@ def scenario(cfg, rep_max, dec, emit, idx=None, start=None, rep_max2=None):
         conds = []
         queries = [{}]
         for j, n in enumerate(names):
-            for x in sorted({c[j] for c in combos}):
+            seen = []
+            for c in combos:
+                if not any(c[j] is x or (x is not None and c[j] is not None
+                                         and c[j] == x) for x in seen):
+                    seen.append(c[j])
+            for x in seen:
                 queries.append({n: x})
                 queries.append({n: x, 'c': 7})
         if len(names) >= 2:
@@ -620,9 +676,21 @@ class Simulate(Harness):
              'the class documents for users)',
              'simulate(i) only: load_partial_results -> None, '
              'save_partial_results -> recorder (nothing is pickled)',
-             'progress bar silenced (update_progress_function_style=None)')
+             'progress bar silenced (update_progress_function_style=None)',
+             'the stop decision of state (variation, successes, skips) is '
+             'handed to the real loop as one of %d kinds (%s), rotating with '
+             'the state and the unit (7 units use a single kind throughout); '
+             'skips are raised as SkipThisOne or as a subclass of it, '
+             'alternating' % (len(KEEP_KINDS), ', '.join(KEEP_KINDS)))
     assumptions = tuple(ASSUMPTIONS[:1] + ASSUMPTIONS[2:])
     outside = ('simulate_in_parallel (ipyparallel)', 'progress bars',
+               'stop decisions of container kinds ([] / [x], non 0-d arrays); '
+               'covered: bool, numpy.bool_, int, float, numpy.int64, None '
+               'versus a non-empty str, 0-d bool array',
+               'rep_max that is not integral (3.5) or < 1; rep_max as '
+               'numpy.int64 / 3.0 / numpy.float64(3.0) and the index as '
+               'numpy.int64 / numpy.int32 / str are probed concretely only '
+               '(the symbolic rep_max and index are integers)',
                'results files / pickling (C07, C17)',
                'RATIO/MISC/CHOICE result types (merge algebra is C06)',
                'more than 2 skips per variation, rep_max > 5',
@@ -648,7 +716,8 @@ class Simulate(Harness):
         if not q:
             # (largest unit first: better load balance)
             unit('g2', 'all', [0, 1], [1, 5], 2)
-        grids = ['g0', 'g2', 'g1x2', 'g2x2'] if q else list(GRIDS)
+        grids = ['g0', 'g2', 'g1x2', 'g2x2'] if q else [
+            g for g in GRIDS if g not in KIND_GRIDS]
         for g in grids:
             n = nvar(g)
             acts = [[0]] if n == 1 else pairs(n)
@@ -700,6 +769,20 @@ class Simulate(Harness):
             reconf('g2x3', 'y', [20, 30, 10], 'index', list(range(9)), r2, 1)
             reconf('g2x1x2', 'k', [4, 5], 'all', [0, 7], r2, 1,
                    rep_change=True)
+        # parameter values that are None / zero-like / '' / bool
+        unit('gNone', 'all', [0, 1], r2, sk)
+        unit('gNone', 'index', [0, 1, 2], r2, sk)
+        unit('gKinds', 'all', [0, 3], r2, 1)
+        if not q:
+            unit('gKinds', 'all', [2, 5], r2, 1)
+            unit('gKinds', 'index', list(range(6)), r2, 1)
+        # by default the kind of value the stop rule returns rotates over
+        # KEEP_KINDS with the state; here every decision has one kind
+        for kind in KEEP_KINDS:
+            unit('g2', 'all', [0, 1], r2 if q else [1, 3], 1)
+            out[-1]['keep_kinds'] = [kind]
+        for i, u in enumerate(out):
+            u['kind_shift'] = i
         return out
 
     @staticmethod
@@ -765,21 +848,31 @@ class Simulate(Harness):
             dec = RandDec(rng, rng.choice([0.0, 0.2, 0.4]),
                           rng.choice([0.0, 0.15, 0.5]),
                           no_first=first_known and j % 4 != 0)
-            rep_max = rng.randrange(1, 9)
+            # the same numbers in the representations a caller may use
+            as_rep = [int, np.int64, float, np.float64][j % 4]
+            as_idx = [int, np.int64, str, np.int32][(j // 4) % 4]
+            rep_max = as_rep(rng.randrange(1, 9))
             c = dict(cfg, rep=[1, 16], max_skips=60)
             idx = rep_max2 = None
             if self._last_grid(cfg) is not None:
-                idx = rng.randrange(self._last_grid(cfg))
+                idx = as_idx(rng.randrange(self._last_grid(cfg)))
             if cfg.get('rep_change'):
-                rep_max2 = rng.randrange(1, 9)
+                rep_max2 = as_rep(rng.randrange(1, 9))
             col = _Collect()
             scenario(c, rep_max, dec, col, idx=idx, rep_max2=rep_max2)
             bad = [f for f in col.failed
                    if _key(_site(cfg), f) not in known]
             if bad:
-                raise AssertionError('real runner deviates from the reference'
-                                     ': %r rep_max=%d pattern=%r' %
-                                     (bad, rep_max, dec.t))
+                from pysym.runner import ConcreteViolation
+                raise ConcreteViolation(
+                    _key(_site(cfg), bad[0]),
+                    dict(grid=GRIDS[cfg['grid']], mode=cfg['mode'],
+                         reassigned=cfg.get('change'), failed=bad,
+                         rep_max=repr(rep_max), rep_max2=repr(rep_max2),
+                         index=repr(idx), decisions=dec.t,
+                         stop_decision_kinds=cfg.get('keep_kinds')
+                         or 'rotating over %r (shift %d)' %
+                         (KEEP_KINDS, cfg.get('kind_shift', 0))))
             if not col.failed:
                 n += 1
         return n
@@ -992,10 +1085,22 @@ class Lookup(Harness):
               '<= 3 (thorough); values symbolic integers, pairwise distinct '
               'per parameter; every non-empty subset of the names fixed to '
               'symbolic integers; optionally a non-unpacked parameter in the '
-              'dictionary; zero unpacked parameters (concrete)')
+              'dictionary; zero unpacked parameters (concrete); None at '
+              'chosen positions of symbolic grids, fixed to None or to a '
+              'symbolic integer; concrete probes: float64 grids of close '
+              'values, and 13 grids of None / 0 / 0.0 / False / \'\' / str / '
+              'numpy int64, float64, float32, bool_ values in list, tuple, '
+              'object-array and typed-array containers, fixed to every grid '
+              'value, to the same value in another numeric type and to an '
+              'absent value (get_pack_indexes, get_result_values_list, '
+              'get_result_values_confidence_intervals)')
     assumptions = (ASSUMPTIONS[1], )
     outside = ('duplicate values inside one unpacked parameter (list.index '
-               'finds only the first)',
+               'finds only the first); values that compare equal count as '
+               'duplicates (0, 0.0, False and their numpy scalars)',
+               'values of other kinds than integers symbolically: None is '
+               'mixed into symbolic grids, str/float/bool/numpy scalars and '
+               'tuple/ndarray containers are probed concretely',
                'float parameter values symbolically (float64 ndarrays are '
                'probed concretely with adversarial close-valued grids)')
 
@@ -1016,14 +1121,33 @@ class Lookup(Harness):
             if not q:
                 out.append(dict(dims=list(dims), fixed=[names[0]], extra=None,
                                 container='array'))
+        # None is one of the values of an unpacked parameter (the other values
+        # stay symbolic) and the lookup fixes that parameter to None / to a
+        # symbolic integer
+        def with_none(dims, fixed, none_pos, fix_none, **kw):
+            out.append(dict(dims=dims, fixed=fixed, extra=None,
+                            none_pos=none_pos, fix_none=fix_none, **kw))
+
+        with_none([3], ['n0'], {'n0': 1}, ['n0'])
+        with_none([2, 2], ['n0'], {'n0': 0}, ['n0'])
+        with_none([2, 2], ['n0', 'n1'], {'n1': 1}, ['n1'])
+        with_none([2, 2], ['n1'], {'n1': 0}, [])
+        with_none([2, 2, 2], ['n1'], {'n1': 1, 'n2': 0}, ['n1'])
+        if not q:
+            with_none([2, 3], ['n0', 'n1'], {'n0': 1, 'n1': 2}, ['n0', 'n1'])
+            with_none([3, 2], ['n0'], {'n0': 2}, ['n0'], container='array')
+            with_none([2, 2, 2], ['n0', 'n2'], {'n0': 0, 'n2': 1}, ['n2'])
         return out
 
     def _inputs(self, cfg, get_int):
         dims = cfg['dims']
         names = ['n%d' % j for j in range(len(dims))]
-        vals = {n: [get_int('%s_v%d' % (n, j)) for j in range(dims[k])]
+        none_pos = cfg.get('none_pos') or {}
+        vals = {n: [None if none_pos.get(n) == j else
+                    get_int('%s_v%d' % (n, j)) for j in range(dims[k])]
                 for k, n in enumerate(names)}
-        fixed = {n: get_int('fix_%s' % n) for n in cfg['fixed']}
+        fixed = {n: None if n in (cfg.get('fix_none') or ()) else
+                 get_int('fix_%s' % n) for n in cfg['fixed']}
         nvar = int(np.prod(dims)) if dims else 1
         rvals = [get_int('res_%d' % i) for i in range(nvar)]
         extra = None
@@ -1038,7 +1162,8 @@ class Lookup(Harness):
             cfg, lambda nm: ctx.integer(nm))
         for n in names:
             for a, b in itertools.combinations(vals[n], 2):
-                ctx.assume(a != b, ASSUMPTIONS[1])
+                if a is not None and b is not None:
+                    ctx.assume(a != b, ASSUMPTIONS[1])
         _lookup_case(cfg, vals, fixed, rvals, ctx.prove, extra)
 
     def replay(self, cfg, name, model):
@@ -1094,7 +1219,134 @@ class Lookup(Harness):
                 raise AssertionError('lookup deviates: %r %r %r' %
                                      (col.failed, vals, fixed))
             n += 1
-        return n + self._float_probe(cfg, rng)
+        return n + self._float_probe(cfg, rng) + self._kind_probe(cfg, rng)
+
+    # -- parameter values of every kind (None, zero-like, '', bool, numpy
+    #    scalars): concrete, the symbolic value model has integers only --------
+    VALUE_GRIDS = [
+        [None, 'rr', 'pf'],
+        [0, 5, 10],
+        [0.0, 5.0, 7.5],
+        [False, True],
+        ['', 'a', 'b'],
+        [np.int64(0), np.int64(3), np.int64(-1)],
+        [np.float64(0.0), np.float64(2.5)],
+        [np.bool_(False), np.bool_(True)],
+        [None, 0, ''],
+        ['', None, 0.0, 'x'],
+        ['None', None, False],
+        [1, None],
+        [np.float32(0.5), np.float32(0.0)],
+    ]
+
+    @staticmethod
+    def _veq(a, b):
+        """the definition of 'the combination has this fixed value'"""
+        if a is None or b is None:
+            return a is b
+        if isinstance(a, str) != isinstance(b, str):
+            return False
+        return bool(a == b)
+
+    @staticmethod
+    def _same_value_other_type(x):
+        if isinstance(x, (bool, np.bool_)):
+            return [np.bool_(x) if isinstance(x, bool) else bool(x)]
+        if isinstance(x, (int, np.integer)):
+            return [np.int64(x) if isinstance(x, int) else int(x), float(x)]
+        if isinstance(x, (float, np.floating)):
+            return [np.float64(x) if isinstance(x, float) else float(x)]
+        return []
+
+    def _kind_probe(self, cfg, rng):
+        from pysym.runner import ConcreteViolation
+        if not cfg['dims'] or not cfg['fixed'] or cfg['extra'] is not None \
+                or cfg.get('none_pos'):
+            return 0
+        par, rs = repo_module(PAR), repo_module(RES)
+        names = ['n%d' % j for j in range(len(cfg['dims']))]
+        G = self.VALUE_GRIDS
+        count = 0
+        for shift in range(len(G)):
+            d, grid = {}, {}
+            for k, n_ in reversed(list(enumerate(names))):
+                g = list(G[(shift + 5 * k) % len(G)])
+                grid[n_] = g
+                how = (shift + k) % 4
+                if how == 1:
+                    d[n_] = tuple(g)
+                elif how == 2:
+                    d[n_] = np.empty(len(g), dtype=object)
+                    d[n_][:] = g
+                elif how == 3 and all(x is not None for x in g) and len(
+                        {type(x) for x in g}) == 1:
+                    d[n_] = np.array(g)  # typed ndarray
+                else:
+                    d[n_] = list(g)
+            d['c'] = 7
+            params = par.SimulationParameters.create(d)
+            for n_ in names:
+                params.set_unpack_parameter(n_)
+            coords = list(itertools.product(*[range(len(grid[n_]))
+                                              for n_ in names]))
+            results = rs.SimulationResults()
+            results.set_parameters(params)
+            stored = []
+            for i in range(len(coords)):
+                r = rs.Result.create('res', rs.Result.SUMTYPE, 100 + i)
+                r.update(3 * i)
+                r.update(i * i)
+                stored.append(r)
+                results.append_result(r)
+            choices = []
+            for n_ in cfg['fixed']:
+                c = [(n_, x) for x in grid[n_]]
+                for x in grid[n_]:
+                    c += [(n_, y) for y in self._same_value_other_type(x)]
+                c.append((n_, 'a value that is not in the grid'))
+                choices.append(c)
+            for combo in itertools.product(*choices):
+                q = dict(combo)
+                want = [i for i, co in enumerate(coords) if all(
+                    self._veq(grid[n_][co[names.index(n_)]], x)
+                    for n_, x in q.items())]
+                kinds = 'NoneType' if any(x is None for x in q.values()) \
+                    else '+'.join(sorted({type(x).__name__
+                                          for x in q.values()}))
+                detail = dict(
+                    parameters={n_: '%s %r' % (type(d[n_]).__name__,
+                                               grid[n_]) for n_ in names},
+                    fixed={n_: '%s %r' % (type(x).__name__, x)
+                           for n_, x in q.items()},
+                    expected=want or '[] or ValueError')
+                try:
+                    got = [int(i) for i in params.get_pack_indexes(q)]
+                except ValueError:
+                    got = 'ValueError'
+                if not (got == want or (not want and got == 'ValueError')):
+                    raise ConcreteViolation(
+                        'C05/get_pack_indexes/fixed-value-kind:' + kinds,
+                        dict(detail, got=got))
+                if want:
+                    out = results.get_result_values_list('res', q)
+                    exp = [stored[i].get_result() for i in want]
+                    if list(out) != exp:
+                        raise ConcreteViolation(
+                            'C05/get_result_values_list/fixed-value-kind:' +
+                            kinds, dict(detail, values=[float(o)
+                                                        for o in out]))
+                    ci = results.get_result_values_confidence_intervals(
+                        'res', P=95.0, fixed_params=q)
+                    exp = [stored[i].get_confidence_interval(95.0)
+                           for i in want]
+                    if len(ci) != len(exp) or not all(
+                            np.allclose(a, b, equal_nan=True)
+                            for a, b in zip(ci, exp)):
+                        raise ConcreteViolation(
+                            'C05/get_result_values_confidence_intervals/'
+                            'fixed-value-kind:' + kinds, detail)
+                count += 1
+        return count
 
     # -- float parameter grids (not reachable symbolically: the proxies live
     #    in object arrays, a float64 ndarray is a different code path) -------
@@ -1202,7 +1454,11 @@ MANIFEST = dict(
     note='<=2 skips per variation; symbolic skip/stop behaviour on <=2 '
     'variations per unit; SUMTYPE integer results only; no files (partial '
     'result loader/saver stubbed where the code path needs them); parallel '
-    'runner and progress bars outside; unpacked values pairwise distinct',
+    'runner and progress bars outside; unpacked values pairwise distinct '
+    '(under ==); value/representation kinds other than integers (float '
+    'arrays, None/str/bool/numpy scalars, kinds of the stop decision, of '
+    'rep_max and of the index) are concrete or structural variants, not '
+    'solver variables',
     technique='symbolic execution of the real runner loop (path forking on '
     'symbolic Bool/Int) + z3 LIA obligations against a reference interpreter; '
     'counterexample replay on the real class with the model\'s skip/stop '
